@@ -418,6 +418,10 @@ class IMAPConnection:
                             self._print('%s <->| <TLS failure: %s>',
                                         exc.reason)
                             return
+                    # a FETCH response refers to the selected mailbox, which
+                    # is tracked by weak reference: it must not outlive the
+                    # command, e.g. while a later SELECT fails
+                    del response
                 finally:
                     await state.do_cleanup()
                     current_command.reset(prev_cmd)
